@@ -362,6 +362,16 @@ static void log_int_list(const char* key, const long* v, int n) {
   vf_log_raw("]", 1);
 }
 
+/* callback of the line-buffer test: lengths of the strings it is handed */
+static long bufout_max, bufout_n, bufout_total, bufout_unterminated;
+static void bufout_cb(const char* msg, void* arg) {
+  (void)arg;
+  size_t l = strnlen(msg, CHUNK_CAP);
+  if (l >= CHUNK_CAP) bufout_unterminated++;
+  if ((long)l > bufout_max) bufout_max = (long)l;
+  bufout_n++; bufout_total += (long)l;
+}
+
 #define MAXSZ 1100
 static int mode_fmt(int maxsize, int only) {
   gb_init();
@@ -422,6 +432,26 @@ static int mode_fmt(int maxsize, int only) {
       log_int_list("terminated", terms, cnt); vf_log_raw(",", 1);
       log_int_list("under", unders, cnt);
       vf_log_raw("}", 1); vf_row_end();
+    }
+  }
+  /* the line buffer of the statistics printer (mi_buffered_out): capacity `count`, storage count+1 bytes ending at the guard page */
+  static const int msglens[] = { 0, 1, 10, 254, 255, 256, 257, 600, 3000 };
+  for (int count = 1; count <= 300; count += (count < 40 || (count > 250 && count < 262) ? 1 : 13)) {
+    for (int mi = 0; mi < 9; mi++) {
+      for (int nl = 0; nl < 2; nl++) {
+        int ml = msglens[mi];
+        vf_ctx = "buffered_out"; vf_ctx_a = count; vf_ctx_b = ml; vf_ctx_c = nl;
+        static char msg[3001];
+        memset(msg, 'b', (size_t)ml); msg[ml] = 0;
+        if (nl) for (int k = 17; k < ml; k += 97) msg[k] = '\n';
+        bufout_max = 0; bufout_n = 0; bufout_total = 0; bufout_unterminated = 0;
+        buffered_t bf = { bufout_cb, NULL, gb_buf((size_t)count + 1), 0, (size_t)count };
+        mi_buffered_out(msg, &bf);
+        mi_buffered_flush(&bf);
+        vf_logf("{\"k\":\"bufout\",\"count\":%d,\"msglen\":%d,\"newlines\":%s,\"chunks\":%ld,\"maxlen\":%ld,\"total\":%ld,\"unterminated\":%ld}",
+                count, ml, nl ? "true" : "false", bufout_n, bufout_max, bufout_total, bufout_unterminated);
+        vf_row_end();
+      }
     }
   }
   vf_logf("{\"k\":\"exit\"}"); vf_row_end();
